@@ -6,7 +6,7 @@ from .. import jsongen
 
 THEOREMS = ['accepted_is_wellformed', 'accepted_values_in_range', 'created_at_literal', 'created_at_wide_rejected',
             'kind_literal', 'kind_wide_rejected', 'any_order_any_whitespace', 'canonical_text_faithful',
-            'any_order_any_whitespace_unknown_members', 'complete_any_json_spelling']
+            'any_order_any_whitespace_unknown_members', 'complete_any_json_spelling', 'hex_table_from_source']
 
 
 def check_values(c, text, consumed, acc, line, what):
